@@ -3,8 +3,11 @@ import SlotVerif.Props.C02
 /-!
 # C04 — Every represented instance of a rule's left side fires
 
-The matcher and `apply_rewrites` are not modelled; completeness is validated per run on *planted*
-instances.  The Lean side supplies the two judgements the plant is measured with, both by the
+`apply_rewrites` is not modelled, and completeness of the matcher is not a theorem: it is validated per run on *planted*
+instances.  (The single- and the multi-pattern matcher *are* modelled — `Model/EMatch.lean`, `Model/MultiMatch.lean`, see
+C05 — and the whole match list of the implementation is compared with the model's on every state of the `mat` suite, which
+is registered for this property too; what is proved about those models is that every returned substitution binds every
+variable, not that no instance is missed.)  The Lean side supplies the two judgements the plant is measured with, both by the
 verified match checker of C05 on dumped states:
 * before the rewrite, the planted substitution is accepted for the **left** pattern — so it is a
   genuine obligation for the matcher (every variable bound, the instance represented, possibly only
